@@ -27,6 +27,8 @@ THEOREMS = [
     'OpenHTF.Logs.c19_handlers_do_not_accumulate',
     'OpenHTF.Logs.c19_mac_matched',
     'OpenHTF.Logs.c19_redact_keeps_prefix_drops_rest',
+    'OpenHTF.HandlerList.c19_registered_handler_stays_registered',
+    'OpenHTF.HandlerList.unlocked_registration_can_lose_the_handler',
 ]
 RULE = ('H/seq: histories (length <= 10) of start / log / finish over uids {u1, u10, u1x, t2} with logger names from a '
         'grammar (record logger, phase / plug / deeper children, framework names, look-alike prefixes); H/run: 1-3 '
